@@ -55,7 +55,7 @@ def run(res: C.Result):
             return toks.setdefault(g, len(toks) + 1)
         counting = p["calc"] in ("caching", "internal")
         os_, first = [], True
-        g0 = r["trials"][0]["pre"]["geom"] if r["trials"] else None
+        g0 = r["trials"][0]["pre"]["geom12"] if r["trials"] else None
         for ti, t in enumerate(r["trials"]):
             dist["trials"] += 1
             oc = t["outcome"]
@@ -78,7 +78,7 @@ def run(res: C.Result):
             if counting and p["ensemble"] != "hamiltonian":
                 spent = t["post_evals"] - t["pre_evals"]
                 reached = t["at_eval"] is not None
-                changed = reached and t["at_eval"]["geom"] != t["pre"]["geom"]
+                changed = reached and t["at_eval"]["geom12"] != t["pre"]["geom12"]
                 want = 1 if changed else 0
                 # (the initial reference energy is computed in validate_simulation, before the first trial's snapshot)
                 if spent != want:
@@ -91,14 +91,14 @@ def run(res: C.Result):
             if t["at_eval"] is None:
                 os_.append("Failed")
             else:
-                os_.append(f"{'Accepted' if oc else 'Rejected'} {tk(t['at_eval']['geom'])}")
+                os_.append(f"{'Accepted' if oc else 'Rejected'} {tk(t['at_eval']['geom12'])}")
         if counting and p["ensemble"] != "hamiltonian" and r["trials"]:
             dist["count_checked_programs"] += 1
             s0 = f"(validate nat nat S Nat.eqb (Build_cst {tk(g0)} None None {tk(g0)} None None 0))"
             # tokens must be assigned before use: g0 first
             items.append(f"show (run nat nat S Nat.eqb [{'; '.join(os_)}] {s0})")
             last = r["trials"][-1]
-            meta.append((k, last["post_evals"], tk(last["post"]["geom"])))
+            meta.append((k, last["post_evals"], tk(last["post"]["geom12"])))
     got = {}
     lines = [f"Eval vm_compute in ({j}%nat, {it})." for j, it in enumerate(items)]
     f = res.workdir / "c04.v"
@@ -127,7 +127,7 @@ def run(res: C.Result):
         direct_oracle={"evaluations": dist["trials"], "failures": len(res.failures)}, input_distribution=dist)
     res.samples += [{"program": {x: cases[i][x] for x in ("ensemble", "calc", "moves")}, "trials": [{"name": t["name"], "outcome": t["outcome"], "energy": t["energy"]} for t in results[i].get("trials", [])[:3]]} for i in (0, 2)]
     res.assumptions += ["the evaluation-count clause is checked for result-caching calculators (a stateless calculator recomputes on every request by definition) and not for Hamiltonian moves (as the property says)",
-                        "energies are compared to 1e-9 relative (an independent instance may sum in another order)"]
+                        "a configuration counts as changed when it differs by more than 1e-12 (ASE's compare_atoms ignores differences below 1e-15: a rotation of a one-atom group about itself is no change)", "energies are compared to 1e-9 relative (an independent instance may sum in another order)"]
 
 
 def replay(res: C.Result, path):
